@@ -85,6 +85,8 @@ CHECKS = {
             # the same two workloads in a `go build -asan` worker (C heap and Go objects handed to C are address-sanitised)
             {"engine": "dkgsim", "mode": "chaos", "worker": "asan", "build": "asan", "runs": {"quick": 16000, "thorough": 600000}, "budget": {"quick": 30, "thorough": 1200}, "det": False},
             {"engine": "thrnet", "mode": "", "worker": "asan", "build": "asan", "runs": {"quick": 3200, "thorough": 100000}, "budget": {"quick": 30, "thorough": 1200}, "det": False},
+            # large groups (signer indices up to 253, thresholds up to n-1) under ASan: index-dependent buffers of the C interpolation code
+            {"engine": "thrnet", "mode": "big", "worker": "asan", "build": "asan", "runs": {"quick": 48, "thorough": 1600}, "budget": {"quick": 45, "thorough": 1200}, "det": False},
         ],
         "rule": ("thrnet batch: see C06 (every call on the stateful inspector/participant and the stateless reconstruction runs under recover; shares of length 0/47/49, indices out of range). chaos mode: each run draws protocol, n<=5, t, dealer and a weighted mix of API calls (swarm), then 8..68 (thorough ..158) calls on live instances: deliveries of real messages to nodes in any "
                  "phase, Start, Start with a too short seed, NextTimeout, End, ForceDisqualify with in/out-of-range indices, handlers with unauthenticated origins {-1,n,255,256,2^31-1,-2^31} "
